@@ -268,21 +268,61 @@ def check_frequencies(ctx):
     ctx.check(poly_eq(got, want), R4, fi.key + ":sign", "eigenvalue = 2*even - 1 (even parity -> +1, odd -> -1)", f"the +/-1 eigenvalue is computed as {show(got)} from the even-parity indicator; it must be 2p - 1", fi)
     nm = [v for v in d.defs.get("num_measurements", []) if isinstance(v, ast.AST)]
     ctx.check(len(nm) == 1 and norm(nm[0]) == f"sum({fr}.values())", R4, fi.key + ":total", "total = sum of all counts", f"the total number of shots is {short(nm[0]) if nm else '?'}", fi)
-    ev = [v for v in d.defs.get("expectation_values", []) if isinstance(v, ast.AST)]
+    # mean = sum_i count_i * eigenvalue_i / total. Expand the returned expression through the function's single definitions,
+    # see it as a polynomial (the summation and .item()/float() are linear, hence transparent) and note whether the division
+    # by the total happens inside the summation (once per outcome) or once on the summed integer
+    rets = returned_exprs(fi.node)
     ok = False
-    if len(ev) == 1:
+    inside = None
+    if len(rets) == 1:
+        def expand(e, depth=0):
+            if depth > 8:
+                return e
+            if isinstance(e, ast.Name) and e.id not in ("parity", "num_measurements"):
+                ds = [v for v in d.defs.get(e.id, []) if isinstance(v, ast.AST)]
+                if len(ds) == 1:
+                    return expand(copy.deepcopy(ds[0]), depth + 1)
+            for f, v in ast.iter_fields(e):
+                if isinstance(v, ast.AST):
+                    setattr(e, f, expand(v, depth + 1))
+                elif isinstance(v, list):
+                    setattr(e, f, [expand(x, depth + 1) if isinstance(x, ast.AST) else x for x in v])
+            return e
+
+        full = expand(copy.deepcopy(rets[0]))
+        sums = []
+
         class U(ast.NodeTransformer):
             def visit_Call(self, node):
-                if (dotted(node.func) or "").split(".")[-1] == "fromiter" and norm(node.args[0]) == f"{fr}.values()":
+                self.generic_visit(node)
+                last = (dotted(node.func) or "").split(".")[-1] if dotted(node.func) else (node.func.attr if isinstance(node.func, ast.Attribute) else "")
+                if last == "fromiter" and node.args and norm(node.args[0]) == f"{fr}.values()":
                     return ast.Name(id="COUNTS", ctx=ast.Load())
+                if last in ("item", "sum") and isinstance(node.func, ast.Attribute) and not node.args and not (dotted(node.func) or "").startswith(("np.", "numpy.")):
+                    if last == "sum":
+                        sums.append(node.func.value)
+                    return node.func.value
+                if last in ("float", "int") and len(node.args) == 1 and last == "float":
+                    return node.args[0]
+                if last == "sum" and len(node.args) == 1:
+                    sums.append(node.args[0])
+                    return node.args[0]
+                if last in ("dot", "vdot", "inner") and len(node.args) == 2:
+                    prod = ast.BinOp(left=node.args[0], op=ast.Mult(), right=node.args[1])
+                    sums.append(prod)
+                    return prod
                 return node
 
-        got = poly(U().visit(copy.deepcopy(ev[0])))
+        stripped = U().visit(full)
+        got = poly(stripped)
         ok = poly_eq(got, p_mul(p_mul(p_atom("COUNTS"), p_atom("parity")), {((("num_measurements", -1),)): 1}))
-    ctx.check(ok, R4, fi.key + ":weights", "each outcome's eigenvalue is weighted by its own count / total", "the per-outcome contributions are not count * eigenvalue / total", fi)
-    rets = returned_exprs(fi.node)
-    ok = len(rets) == 1 and norm(rets[0]) in ("expectation_values.sum().item()", "expectation_values.sum()", "float(expectation_values.sum())")
-    ctx.check(ok, R4, fi.key + ":sum", "mean = sum of the contributions", "the mean is not the sum over all distinct outcomes", fi)
+        if sums:
+            inside = any(isinstance(n, ast.Name) and n.id == "num_measurements" for sm in sums for n in ast.walk(sm))
+    ctx.check(ok, R4, fi.key + ":weights", "mean = sum over outcomes of count * eigenvalue / total", f"the returned mean {short(rets[0]) if rets else '?'} is not the sum over all distinct outcomes of count * eigenvalue / total", fi)
+    if ok and inside is not None:
+        ctx.check(not inside, R4, fi.key + ":single-division", "the signed counts are summed as integers and divided by the total once", "every outcome's count is divided by the total before summing: the rounding errors of the quotients add up, so even a constant term (all eigenvalues +1) does not average to exactly 1 and does not contribute exactly its coefficient (e.g. 9.999999999999998 for 10*I over six distinct outcomes)", fi)
+    elif ok:
+        ctx.undecided(R4, fi.key + ":single-division", "cannot locate the summation in the returned mean", fi)
     cp = repo.func(f"{PA}:check_parity_of_vector")
     ctx.analysed(cp)
     rets = returned_exprs(cp.node)
